@@ -301,11 +301,11 @@ def run(ctx):
     ctx.correspondence("lease-model-vs-direct-calls")
     ss, clock = M.new_server("c25")
     terms, info = [], []
-    for i in range(ctx.n(30, 400)):
+    for i in range(ctx.n(30, 240)):
         t, inf = api_history(ctx, ss, clock, i, immutable=False)
         terms.append(t)
         info.append(inf)
-    for i in range(ctx.n(18, 250)):
+    for i in range(ctx.n(18, 150)):
         t, inf = api_history(ctx, ss, clock, i, immutable=True)
         terms.append(t)
         info.append(inf)
@@ -315,7 +315,7 @@ def run(ctx):
                      case=info[ix], correspondence="lease-model-vs-server-histories")
     ctx.trace(len(terms) - len(bad))
     dterms, dinfo = [], []
-    for i in range(ctx.n(24, 400)):
+    for i in range(ctx.n(24, 240)):
         t, inf = direct_history(ctx, ss, i)
         dterms += t
         dinfo += inf
@@ -363,8 +363,8 @@ def replay(ctx, rec):
         sub = type(ctx)(ctx.pid, rec.get("tier", "quick"), rec.get("seed", 0))
         imm = bool(case.get("immutable"))
         # the clock of history i depends on the ticks of the earlier histories of the run
-        n_mut = sub.n(30, 400)
-        seq = [(j, False) for j in range(n_mut)] + [(j, True) for j in range(sub.n(18, 250))]
+        n_mut = sub.n(30, 240)
+        seq = [(j, False) for j in range(n_mut)] + [(j, True) for j in range(sub.n(18, 150))]
         for (j, im) in seq:
             if (j, im) == (case["history"], imm):
                 break
